@@ -55,6 +55,7 @@ inductive SPred
   | runesCmp (c : Cmp) (k : Int)    -- utf8.RuneCountInString(s) OP k
   | ext (id : Nat)                  -- an external predicate of the environment
   | proj (id : Nat) (p : SPred)     -- p on an external projection of the string; false when the projection failed
+  | anyByte (frm : Nat) (c : Cmp) (b : Nat)  -- some octet s[i], i ≥ frm, satisfies `s[i] OP b`
   | anyLabel (p : SPred)            -- some element of strings.Split(s, ".") satisfies p
   | firstLabel (p : SPred)          -- p on strings.Split(s, ".")[0] (Split never returns an empty slice)
   | restLabels (p : SPred)          -- some element of strings.Split(s, ".")[1:] satisfies p
@@ -74,6 +75,7 @@ def SPred.eval (env : Env) : SPred → Bytes → Bool
   | .proj id p, s => match env.fn id s with
     | some t => p.eval env t
     | none => false
+  | .anyByte frm c b, s => (s.drop frm).any (fun x => c.eval x b)
   | .anyLabel p, s => (Names.splitDot s).any (fun l => p.eval env l)
   | .firstLabel p, s => match Names.splitDot s with
     | l :: _ => p.eval env l
